@@ -80,3 +80,33 @@ func VerifDump(s Shedder) VerifState {
 		Rt:              collection.VerifDumpWindow(as.rtCounter),
 	}
 }
+
+// VerifOption wraps a harness callback into a ShedderOption (the option type's parameter is
+// unexported, so only the package can build one). The callback runs inside NewAdaptiveShedder,
+// where every option is applied: a scheduling point "inside the construction of a shedder".
+func VerifOption(f func()) ShedderOption {
+	return func(*shedderOptions) { f() }
+}
+
+// VerifSameShedder reports whether two handles (possibly wrapped by a ShedderGroup) are backed by
+// one and the same adaptive shedder. Diagnostic only.
+func VerifSameShedder(a, b Shedder) bool {
+	x, ok1 := verifUnwrap(a).(*adaptiveShedder)
+	y, ok2 := verifUnwrap(b).(*adaptiveShedder)
+	return ok1 && ok2 && x == y
+}
+
+// VerifAvgFlying reads the moving average of the in-flight count (callers are quiescent).
+func VerifAvgFlying(s Shedder) float64 {
+	as, ok := verifUnwrap(s).(*adaptiveShedder)
+	if !ok {
+		return -1
+	}
+	return as.avgFlying
+}
+
+// the package's own CPU check (stat.CpuUsage() >= threshold), kept so that it can be put back
+var verifDefaultOverloadChecker = systemOverloadChecker
+
+// VerifRestoreOverloadChecker puts the package's own CPU check back in place.
+func VerifRestoreOverloadChecker() { systemOverloadChecker = verifDefaultOverloadChecker }
